@@ -1,8 +1,214 @@
-import AlgoVerif.Common
-/-! Line-protocol component for C14 — not built yet. -/
-namespace AlgoVerif.C14.Driver
+import AlgoVerif.Model.C14
+import AlgoVerif.Model.C14W
+import AlgoVerif.Spec.C14
+/-!
+Line-protocol component for C14.  A case builds one graph and queries it:
 
-def runCase (_hdr : List String) (ops : List String) : List String :=
-  ops.map fun _ => "bad-case"
+    graph directed|undirected|wdirected|wundirected <n>
+    edge <u> <v> [<w>]
+    paths dfs|dfsi|bfs <s>        all `To(v)`, v = 0 … n-1
+    path  dfs|dfsi|bfs <s> <v>    one `To(v)`
+    orders dfs|dfsi|bfs           pre/post orders and ranks
+    cc | scc | cycle | topo | mst | spt <s> | sptto <s> <v>
+
+`scc`, `mst`, `spt`, `sptto` additionally print `cert=<b>`: the Spec certificate evaluated on the Model's
+result (the harness prints `cert=true`, so a failing certificate is a difference).
+-/
+namespace AlgoVerif.C14.Driver
+open AlgoVerif AlgoVerif.C14
+
+inductive Kind | directed | undirected | wdirected | wundirected
+  deriving DecidableEq
+
+structure S where
+  kind : Kind
+  g : Graph
+  neg : Bool := false
+
+def parseKind : String → Option Kind
+  | "directed" => some .directed
+  | "undirected" => some .undirected
+  | "wdirected" => some .wdirected
+  | "wundirected" => some .wundirected
+  | _ => none
+
+def parseStrat : String → Option Strategy
+  | "dfs" => some .dfs
+  | "dfsi" => some .dfsi
+  | "bfs" => some .bfs
+  | _ => none
+
+def Kind.isDirected : Kind → Bool
+  | .directed | .wdirected => true
+  | _ => false
+
+def Kind.isWeighted : Kind → Bool
+  | .wdirected | .wundirected => true
+  | _ => false
+
+def showOptPath : Option (List Nat) → String
+  | some p => showNatList p
+  | none => "-"
+
+def showEdgeD (e : Edge) : String := s!"{e.a}>{e.b}:{e.w}"
+def showEdgeU (e : Edge) : String := s!"{e.a}-{e.b}:{e.w}"
+
+def showSptAns : Option (List Edge × Int) → String
+  | some (p, d) => s!"{d}[" ++ " ".intercalate (p.map showEdgeD) ++ "]"
+  | none => "-"
+
+def outcomeLine {α : Type} (o : Outcome α) (f : α → String) : String × Bool :=
+  match o with
+  | .ok a => ("ok " ++ f a, false)
+  | .panic => ("panic", true)
+  | .diverge => ("hang", true)
+
+/-- all `To(v)` of one `Paths` value -/
+def allTo (p : Paths) (n : Nat) : Outcome (List (Nat × Option (List Nat))) :=
+  (List.range n).foldlM (fun acc (v : Nat) => do
+    let r ← p.to (Int.ofNat v)
+    pure (acc ++ [(v, r)])) []
+
+def showComponents (c : Components) (comps : Array (List Nat)) : String :=
+  s!"count={c.count} id={showNatList c.id.toList} comps=[" ++
+    " ".intercalate (comps.toList.map showNatList) ++ "]"
+
+def runOp (st : S) (f : List String) : String × Bool × S :=
+  let g := st.g
+  let bad : String × Bool × S := ("bad-op", false, st)
+  match f with
+  | ["edge", u, v] =>
+    match parseInt? u, parseInt? v with
+    | some u, some v =>
+      if st.kind.isWeighted then bad
+      else
+        let g' := if st.kind.isDirected then g.addEdgeDirected u v 0 else g.addEdgeUndirected u v 0
+        ("ok", false, { st with g := g' })
+    | _, _ => bad
+  | ["edge", u, v, w] =>
+    match parseInt? u, parseInt? v, parseInt? w with
+    | some u, some v, some w =>
+      if !st.kind.isWeighted then bad
+      else
+        let g' := if st.kind.isDirected then g.addEdgeDirected u v w else g.addEdgeUndirected u v w
+        ("ok", false, { st with g := g', neg := st.neg || (decide (w < 0) && g.isVertexValid u && g.isVertexValid v) })
+    | _, _, _ => bad
+  | ["paths", strat, s] =>
+    match parseStrat strat, parseInt? s with
+    | some strat, some s =>
+      let r := do
+        let p ← g.paths s strat
+        allTo p g.n
+      let (l, dead) := outcomeLine r fun l => " ".intercalate (l.map fun (v, p) => s!"{v}:{showOptPath p}")
+      (l, dead, st)
+    | _, _ => bad
+  | ["path", strat, s, v] =>
+    match parseStrat strat, parseInt? s, parseInt? v with
+    | some strat, some s, some v =>
+      let r := do
+        let p ← g.paths s strat
+        p.to v
+      let (l, dead) := outcomeLine r showOptPath
+      (l, dead, st)
+    | _, _, _ => bad
+  | ["orders", strat] =>
+    match parseStrat strat with
+    | some strat =>
+      let (l, dead) := outcomeLine (g.orders strat) fun o =>
+        s!"pre={showNatList o.preOrder.toList} post={showNatList o.postOrder.toList} prerank={showNatList o.preRank.toList} postrank={showNatList o.postRank.toList}"
+      (l, dead, st)
+    | none => bad
+  | ["cc"] =>
+    if st.kind.isDirected then bad
+    else
+      let r := do
+        let c ← g.connectedComponents
+        let comps ← c.components
+        pure (c, comps)
+      let (l, dead) := outcomeLine r fun (c, comps) => showComponents c comps
+      (l, dead, st)
+  | ["scc"] =>
+    if !st.kind.isDirected then bad
+    else
+      let r := do
+        let c ← g.stronglyConnectedComponents
+        let comps ← c.components
+        pure (c, comps)
+      let (l, dead) := outcomeLine r fun (c, comps) =>
+        showComponents c comps ++ s!" cert={showBool (sccCertificate g c)}"
+      (l, dead, st)
+  | ["cycle"] =>
+    if st.kind != .directed then bad
+    else
+      let (l, dead) := outcomeLine g.directedCycle fun c =>
+        match c.cycleList with
+        | some cyc => showNatList cyc
+        | none => "none"
+      (l, dead, st)
+  | ["topo"] =>
+    if st.kind != .directed then bad
+    else
+      let (l, dead) := outcomeLine g.topological fun t =>
+        match t.order, t.rank with
+        | some o, some r => s!"order={showNatList o} rank={showNatList r.toList}"
+        | _, _ => "none"
+      (l, dead, st)
+  | ["mst"] =>
+    if st.kind != .wundirected then bad
+    else
+      let (l, dead) := outcomeLine g.minimumSpanningTree fun m =>
+        s!"weight={m.weight} edges=[" ++ " ".intercalate (m.edges.map showEdgeU) ++ s!"] cert={showBool (mstCertificate g m)}"
+      (l, dead, st)
+  | ["spt", s] =>
+    match parseInt? s with
+    | some s =>
+      if st.kind != .wdirected then bad
+      else if st.neg then ("ok unsupported-negative-weight", false, st)
+      else
+        let r := do
+          let t ← g.shortestPathTree s
+          let answers ← (List.range g.n).foldlM (fun acc (v : Nat) => do
+            let a ← t.pathTo (Int.ofNat v)
+            pure (acc ++ [(v, a)])) []
+          pure (t, answers)
+        let (l, dead) := outcomeLine r fun (t, answers) =>
+          " ".intercalate (answers.map fun (v, a) => s!"{v}:{showSptAns a}") ++
+            s!" cert={showBool (sptCertificate g s.toNat t answers)}"
+        (l, dead, st)
+    | none => bad
+  | ["sptto", s, v] =>
+    match parseInt? s, parseInt? v with
+    | some s, some v =>
+      if st.kind != .wdirected then bad
+      else if st.neg then ("ok unsupported-negative-weight", false, st)
+      else
+        let r := do
+          let t ← g.shortestPathTree s
+          let a ← t.pathTo v
+          pure (t, a)
+        let (l, dead) := outcomeLine r fun (t, a) =>
+          showSptAns a ++ s!" cert={showBool (sptCertificate g s.toNat t [(v.toNat, a)])}"
+        (l, dead, st)
+    | _, _ => bad
+  | _ => bad
+
+def runCase (_hdr : List String) (ops : List String) : List String := Id.run do
+  let mut st : Option S := none
+  let mut dead := false
+  let mut out : Array String := #[]
+  for line in ops do
+    if dead then out := out.push "skip"; continue
+    match words line, st with
+    | ["graph", kind, n], none =>
+      match parseKind kind, parseNat? n with
+      | some k, some n => st := some { kind := k, g := Graph.new n }; out := out.push "ok"
+      | _, _ => out := out.push "bad-op"
+    | f, some s =>
+      let (l, d, s') := runOp s f
+      st := some s'
+      dead := d
+      out := out.push l
+    | _, none => out := out.push "bad-op"
+  return out.toList
 
 end AlgoVerif.C14.Driver
